@@ -100,7 +100,10 @@ EnvStep(what) ==
     /\ hist' = Append(hist, what)
     /\ UNCHANGED <<gen, run, nfaults>>
 
+\* edit classes that change an emit call: possible only while the project emits events
+EventClasses == {"event_payload", "event_renamed", "event_added"}
 Edit(c) ==
+    /\ c \in EventClasses => hasEvents
     /\ EnvStep(<<"edit", c>>)
     /\ attrs' = [attrs EXCEPT ![c] = 1 - @]
     /\ UNCHANGED <<hasCmds, hasEvents, viz, out, cache, probe, lost>>
